@@ -43,6 +43,14 @@ func genSet(rng *hx.Rng, n int, top int) string {
 
 var malformed = []string{"0", "0:2", "1:0", "-1", "1:", ":2", "1::2", "a", "1,a", "1:2:3", "+2", ",", "1,,2", "**", "1:*:2", "99999999999999999999", "1;2"}
 
+var isMalformed = func() map[string]bool {
+	m := map[string]bool{}
+	for _, x := range malformed {
+		m[x] = true
+	}
+	return m
+}()
+
 func main() {
 	o, rep := hx.Init("C09")
 	hx.Quiet()
@@ -67,6 +75,7 @@ func main() {
 
 func sets(o *hx.Opts, rep *hx.Report, w *world.World, rng *hx.Rng) {
 	var ops, impl, desc []string
+	nrank := 0
 	shapes := 4
 	perShape := 120
 	if o.Thorough {
@@ -100,6 +109,26 @@ func sets(o *hx.Opts, rep *hx.Report, w *world.World, rng *hx.Rng) {
 				if rng.Chance(25) {
 					del = append(del, i)
 				}
+			}
+			if n >= 3 {
+				// always a gap below the top: the highest UID then exceeds the number of messages, and `*` means two different
+				// numbers in a sequence set and in a UID set
+				var d2 []int
+				has2 := false
+				for _, d := range del {
+					if d == n {
+						continue // the top UID stays
+					}
+					if d == 2 {
+						has2 = true
+					}
+					d2 = append(d2, d)
+				}
+				if !has2 {
+					d2 = append(d2, 2)
+					sort.Ints(d2)
+				}
+				del = d2
 			}
 			var ss []string
 			for i := 0; i < perShape; i++ {
@@ -168,6 +197,14 @@ func sets(o *hx.Opts, rep *hx.Report, w *world.World, rng *hx.Rng) {
 			for _, l := range r.Untagged {
 				if m := reFetchUID.FindStringSubmatch(l); m != nil {
 					got = append(got, m[2])
+					// the response carries the message's sequence number: its rank in ascending UID order
+					k, _ := strconv.Atoi(m[1])
+					if u, _ := strconv.Atoi(m[2]); k < 1 || k > N || uids[k-1] != u {
+						nrank++
+						if nrank <= 3 {
+							rep.Violate("impl-violation", "numbering (Props.C09.ranks_are_positions)", fmt.Sprintf("%s: UID FETCH %s answered %q, but UID %s is message %d of %v", tag, set, l, m[2], rankOf(uids, u), uids), []string{tag})
+						}
+					}
 				}
 			}
 			ops = append(ops, "uidfetch "+hx.H(set)+" "+uidArgs)
@@ -188,6 +225,58 @@ func sets(o *hx.Opts, rep *hx.Report, w *world.World, rng *hx.Rng) {
 			desc = append(desc, tag+" # STORE")
 			rep.Case("STORE "+set+" N="+strconv.Itoa(N), nontriv)
 			rep.Hit("A:STORE:" + got[0])
+			// SEARCH set / SEARCH UID set / UID SEARCH UID set: the same sets denote the same messages as search keys
+			ranksOf := func(r world.Resp) []int {
+				var out []int
+				for _, l := range r.Untagged {
+					if m := reSearch.FindStringSubmatch(l); m != nil {
+						for _, x := range strings.Fields(m[1]) {
+							k, _ := strconv.Atoi(x)
+							out = append(out, k)
+						}
+					}
+				}
+				sort.Ints(out)
+				return out
+			}
+			if !isMalformed[set] {
+				r = cl.Cmd("SEARCH " + set)
+				got = []string{strings.ToLower(r.Status())}
+				for _, k := range ranksOf(r) {
+					u := 0
+					if k >= 1 && k <= N {
+						u = uids[k-1]
+					}
+					got = append(got, fmt.Sprintf("%d:%d", k, u))
+				}
+				ops = append(ops, "fetchseq "+hx.H(set)+" "+uidArgs)
+				impl = append(impl, strings.Join(got, " "))
+				desc = append(desc, tag+" # SEARCH <set>")
+				rep.Case("SEARCH "+set+" N="+strconv.Itoa(N), nontriv)
+				rep.Hit("A:SEARCH:" + got[0])
+				r = cl.Cmd("SEARCH UID " + set)
+				got = []string{strings.ToLower(r.Status())}
+				for _, k := range ranksOf(r) {
+					u := 0
+					if k >= 1 && k <= N {
+						u = uids[k-1]
+					}
+					got = append(got, strconv.Itoa(u))
+				}
+				ops = append(ops, "uidfetch "+hx.H(set)+" "+uidArgs)
+				impl = append(impl, strings.Join(got, " "))
+				desc = append(desc, tag+" # SEARCH UID <set>")
+				r = cl.Cmd("UID SEARCH UID " + set)
+				got = []string{strings.ToLower(r.Status())}
+				for _, u := range ranksOf(r) {
+					got = append(got, strconv.Itoa(u))
+				}
+				ops = append(ops, "uidfetch "+hx.H(set)+" "+uidArgs)
+				impl = append(impl, strings.Join(got, " "))
+				desc = append(desc, tag+" # UID SEARCH UID <set>")
+				rep.Case("SEARCH UID "+set+" N="+strconv.Itoa(N), nontriv)
+				rep.Hit("A:SEARCHUID:" + got[0])
+			}
 		}
 		cl.Close()
 	}
@@ -198,6 +287,15 @@ func sets(o *hx.Opts, rep *hx.Report, w *world.World, rng *hx.Rng) {
 	}
 	nbad := 0
 	for i := range ops {
+		if strings.Contains(desc[i], "SEARCH") {
+			// as a search key the set is judged where it is a valid set (what SEARCH answers to a malformed key is C19's subject);
+			// the order of the answer is not part of the denotation
+			if !strings.HasPrefix(model[i], "ok") {
+				continue
+			}
+			a, b := uniq(strings.Fields(impl[i])), uniq(strings.Fields(model[i])) // FETCH answers once per mention, SEARCH lists a set
+			impl[i], model[i] = strings.Join(a, " "), strings.Join(b, " ")
+		}
 		if impl[i] != model[i] {
 			nbad++
 			if nbad <= 3 {
@@ -210,6 +308,26 @@ func sets(o *hx.Opts, rep *hx.Report, w *world.World, rng *hx.Rng) {
 		rep.Sample(desc[0] + " => " + impl[0])
 		rep.Sample(desc[len(ops)/2] + " => " + impl[len(ops)/2])
 	}
+}
+
+func uniq(xs []string) []string {
+	sort.Strings(xs)
+	var out []string
+	for i, x := range xs {
+		if i == 0 || x != xs[i-1] {
+			out = append(out, x)
+		}
+	}
+	return out
+}
+
+func rankOf(uids []int, u int) int {
+	for i, x := range uids {
+		if x == u {
+			return i + 1
+		}
+	}
+	return 0
 }
 
 // ---------- B + C: histories ----------
